@@ -14,7 +14,7 @@ CONFIG = dict(
                "code along calls, spawns and stored-closure dispatch (so every such path passes through a queue), invocation_points_reviewed that the graph "
                "contains no unreviewed invocation point / literal use, invocations_on_loop and posted_closures_on_loop that every invocation point is wired to "
                "RunService.loop, timer_roots_enqueue that the timer goroutine reaches a channel send. Dynamically, two instrumented real services record "
-               "goroutine and in-flight count at 17 entry-point kinds under concurrent producers; the monitor predicate Loop.Mon.ok is evaluated on those records.",
+               "goroutine and in-flight count at 18 entry-point kinds under concurrent producers; the monitor predicate Loop.Mon.ok is evaluated on those records.",
     level_note="Partial: the Go scheduler and memory model are not modelled; reflect.Select, proto.actor (mailbox run -> Receive) and apimapper's reflective "
                "handler call are trusted links of the graph; the reviewed tables of lean/Cell2v/Spec/C04.lean (which keys are service code, which exported "
                "functions are loop-side API to be called only from the service's goroutine) are a hand-written description checked for completeness, not for truth; "
@@ -41,8 +41,12 @@ CONFIG = dict(
          "publishers, a global-event publisher, root-context notifies, API requests / raw requests / unserialisable requests / one request that times out "
          "(30 s virtual) in both directions between the services, and up to 40 scripted network goroutines driving the real pomelo.SessionsImpl "
          "(create, messages, close), notifies whose handler outlasts the mailbox's 20 ms frame budget with a backlog behind them (smoothing pauses, counted in the histogram via the verif hook), "
-         "timers armed with zero / negative delay from the service and from a foreign goroutine, and notifies to up to 12 sibling actors sharing A's dispatcher while A's goroutine is kept busy (more runs pending than the 9-slot channel holds); handlers dwell inside the service by virtual sleep / yield / spin. One evaluation = one burst: per service and entry kind "
-         "(post, tmr, tz, lev, gev, req, mute, raw, ntf, slow, sib, rsp, tmo, sfl, sadd, smsg, srem) the number of entries, the set of goroutines (canonical numbering) and "
+         "timers armed with zero / negative delay from the service and from a foreign goroutine, and notifies to up to 12 sibling actors sharing A's dispatcher while A's goroutine is kept busy (more runs pending than the 9-slot channel holds); handlers dwell inside the service by virtual sleep / yield / spin. A third of the cases switch both event centres to direct mode (`evmode chan=0`: SetLocalUseChan(false), "
+         "local events then published by the owner only, global events by owner or foreign goroutines and still required on the owner's goroutine); a third end with `stop`: client "
+         "connections open, A inside a long piece with up to 200 closures queued, its run service stopped by a foreign goroutine or by the piece itself, then the connections close "
+         "(how many queued closures still run is not compared; nothing of A may run off its goroutine)."
+         " One evaluation = one burst: per service and entry kind "
+         "(post, tmr, tz, lev, dlev, gev, req, mute, raw, ntf, slow, sib, rsp, tmo, sfl, sadd, smsg, srem) the number of entries, the set of goroutines (canonical numbering) and "
          "the largest number of pieces of the service's code in progress at once (another goroutine or a nested piece), compared with the serial model's observation and checked by the monitor predicate; "
          "non-trivial = every well-formed op; distinct = distinct (op, observation) pairs",
     trusted_base=[
